@@ -542,4 +542,13 @@ writer, SendError under SendReply's lock) and leaked locks that would wedge ever
 theorem c07_lock_discipline :
     FV.Locks.ok [7] FV.Generated.Locks.mutexTags FV.Generated.Locks.facts = true := by decide +kernel
 
+/-- **Fields are written under their lock** (regenerated from lib/go on every check): no method writes a field
+of a mutex-holding struct (the subscriber transports' open state) while no mutex of that struct is write-held — by assignment, `++`, `delete` or an
+atomic store — unless the site is one of the hand-classified set-up / single-owner sites of
+`known/locks_unguarded_expected.txt`. The atomic-step models read and write such state in ONE critical section;
+a value computed from a read under the lock and stored after it was released (a lazily filled cache) is a lost
+update the models cannot exhibit and the race detector does not see. -/
+theorem c07_fields_written_under_lock :
+    FV.Locks.writesGuarded [7] FV.Generated.Locks.unguardedUnexpected = true := by decide +kernel
+
 end FV.C07
